@@ -11,8 +11,8 @@ from vf.world import sut
 
 RULE = (
     "Hypothesis rule-based machine over 2 HeavyHitters sketches (width 1..8, depth 1..3, max_key_len 2..8, NUL-alias key universe), rules "
-    "add/update(list|dict)/add_ngram/merge/save_load interleaved with query(i,k,t), k in {1,2,3,10^9}, t in {None,0,1,2..10,2^32-1}, and "
-    "requery (the same arguments again, then a different threshold, then the first again: cache hit and miss paths) and cross_query (X, then another sketch Y, then X again), direct_regen (query, the public generate_candidate_set(t') called directly, the first query again) and saturated_then_huge_threshold (add(key, 2^32-1), then a query with threshold 2^32-1 / 2^32 / 2^40 / inf: a rejected call is not judged, a returned answer must hold counts >= threshold). Directed grid: for phi in {0.01..0.99} (width 64) and default phi = 1/width for width 2..199, every n_added in 1..200 (thorough 600): a key holding exactly floor(phi*n_added) must be in query(). Oracle per query, "
+    "add/update(list|dict)/add_ngram/merge/save_load interleaved with query(i,k,t), k in {0,1,2,3,10^9}, t in {None,0,1,2..10,2^32-1}, and "
+    "requery (the same arguments again, then a different threshold, then the first again: cache hit and miss paths) and cross_query (X, then another sketch Y, then X again), phi_change (default-threshold query, the public attribute phi reassigned, default-threshold query again), direct_regen (query, the public generate_candidate_set(t') called directly, the first query again) and saturated_then_huge_threshold (add(key, 2^32-1), then a query with threshold 2^32-1 / 2^32 / 2^40 / inf: a rejected call is not judged, a returned answer must hold counts >= threshold). Directed grid: for phi in {0.01..0.99} (width 64) and default phi = 1/width for width 2..199, every n_added in 1..200 (thorough 600): a key holding exactly floor(phi*n_added) must be in query(). Oracle per query, "
     "evaluated on the answer obtained FIRST, before any helper call touches the sketch: length <= k; keys distinct; counts non-increasing; "
     "each count == hh[key] and >= effective threshold (floor(phi*n_added) for None); counts == first k counts of query(10^9,t); every model "
     "key with hh[key] >= max(threshold,1) is in the unbounded answer; and the answer equals (as count sequence and, for k=inf, as a multiset of pairs) "
@@ -29,7 +29,7 @@ CFG = st.builds(
     st.sampled_from([1, 2, 2, 3, 4, 8, 70]), st.integers(1, 4), st.sampled_from([2, 3, 4, 8]), st.sampled_from([None, None, 0.05, 0.3]), st.sampled_from([None, None, None, "u8", "i8", "u32", "i64", "u64", "i32"]),
 )
 VALUES = st.one_of(st.sampled_from([0, 1, 1, 2, 3, 5, 20]), st.integers(0, 12))
-KS = st.sampled_from([1, 2, 3, 10**9, 10**9])
+KS = st.sampled_from([0, 1, 2, 3, 10**9, 10**9])
 TS = st.one_of(st.sampled_from([None, None, 0, 1, CEIL]), st.integers(2, 10))
 
 
@@ -55,6 +55,13 @@ class QueryChecker:
             for key, c in got:
                 if int(c) < step["t"]:
                     raise Violation(f"sketch {step['i']} query({step['k']},{step['t']}): reports ({key!r},{int(c)}) below the threshold", "below-threshold")
+            return
+        if op == "set_phi":
+            # phi is a documented public attribute (saved by save()); assigning it changes the default threshold
+            import numpy as np
+
+            self.w.sk[step["i"]].phi = np.float64(step["phi"])
+            self.nt.add("phi_reassigned")
             return
         if op == "gen_cs":
             # the public generate_candidate_set(threshold) called directly, as the repository's own tests do
@@ -174,6 +181,17 @@ def _direct_regen(self, i, k, t1, t2):
     self.do({"op": "query", "i": i, "k": k, "t": t1})
 
 
+@rule(i=machines.SK, k=KS, phi=st.sampled_from([0.05, 0.2, 0.3, 0.5, 1.0]), how=st.sampled_from(["query", "gen_cs"]))
+def _phi_change(self, i, k, phi, how):
+    """default-threshold query, phi reassigned, default-threshold query (or candidate generation) again"""
+    i = i % self.N
+    self.do({"op": "query", "i": i, "k": k, "t": None})
+    self.do({"op": "set_phi", "i": i, "phi": phi})
+    if how == "gen_cs":
+        self.do({"op": "gen_cs", "i": i, "t": None})
+    self.do({"op": "query", "i": i, "k": k, "t": None})
+
+
 @rule(i=machines.SK, ki=machines.IDX, k=KS, t=st.sampled_from([2**32, 2**32 + 1, 2**40, float("inf"), CEIL]))
 def _saturated_then_huge_threshold(self, i, ki, k, t):
     """a key saturated at 2^32-1, then a threshold no count can reach"""
@@ -201,7 +219,7 @@ def _patched_world_apply():
     orig = World.apply
 
     def apply(self, step):
-        if step["op"] in ("query", "bad_query", "gen_cs"):
+        if step["op"] in ("query", "bad_query", "gen_cs", "set_phi"):
             return set()
         return orig(self, step)
 
@@ -216,7 +234,7 @@ def _shard(arg):
     holder = {}
     M = machines.make_machine(
         "C13Machine", QueryChecker, rec, holder, CFG=CFG, N=2, VALUES=VALUES, MAXKEY=11, draw_universe=_draw_universe,
-        query=_query, requery=_requery, threshold_walk=_threshold_walk, cross_query=_cross_query, bad_then_good_query=_bad_then_good_query, direct_regen=_direct_regen, saturated_then_huge_threshold=_saturated_then_huge_threshold,
+        query=_query, requery=_requery, threshold_walk=_threshold_walk, cross_query=_cross_query, bad_then_good_query=_bad_then_good_query, direct_regen=_direct_regen, saturated_then_huge_threshold=_saturated_then_huge_threshold, phi_change=_phi_change,
     )
     common.run_machine(M, common.derive_seed(seed, "C13", shard), n_examples, steps, holder, rec, retry=lambda c_: machines.replay_trace(c_, QueryChecker))
     return rec
